@@ -309,8 +309,8 @@ def design_flat_parent(r, name):
     nb = r.randrange(1, 4)
     ns = r.randrange(1, 3)
     dup = r.random() < 0.75
-    # `vars(..)` of an into_existing instruction used by a struct-level ghost (the Into flavour of the post-init dialect
-    # drops `vars` on the pinned tree — documented defect — so these programs do not request `into`)
+    # `vars(..)` used by a struct-level ghost, in Into and IntoExisting alike (the Into flavour dropped the bindings in the
+    # post-init dialect until fix 615fb96)
     use_vars = r.random() < 0.35
     a_members = [f"b{k}" for k in range(nb)] + [f"s{k}" for k in range(ns)] + (["g"] if use_vars else [])
     m.types.append(f"{DERIVES} pub struct A {{ " + ", ".join(f"pub {nm}: i64" for nm in a_members) + " }")
@@ -321,7 +321,7 @@ def design_flat_parent(r, name):
         fields.append(("dup", f"#[map(b{dup_to})] pub dup: i64"))
     r.shuffle(fields)
     if use_vars:
-        item = f"#[{pre}from(A{err})] #[{pre}into_existing(A{err} | vars(v0: {{ 5 }}, v1: {{ v0 * 2 }}))] #[ghosts(g: {{ v1 + 1 }})] pub struct S {{ " + ", ".join(src for _, src in fields) + " }"
+        item = f"#[{pre}from(A{err})] #[{pre}into(A{err} | vars(v0: {{ 5 }}, v1: {{ v0 * 2 }}))] #[{pre}into_existing(A{err} | vars(v0: {{ 5 }}, v1: {{ v0 * 2 }}))] #[ghosts(g: {{ v1 + 1 }})] pub struct S {{ " + ", ".join(src for _, src in fields) + " }"
     else:
         ia = " | inner_attribute(allow(unused_variables))" if r.random() < 0.4 else ""
         fa = " | attribute(inline)" if r.random() < 0.3 else ""
@@ -348,21 +348,68 @@ def design_flat_parent(r, name):
     if fallible:
         m.tests.append(("from_owned", f'let a = {a_lit}; let r: Result<S, String> = S::try_from(a); println!("{name} from_owned {{:?}}", r);', dbg(("ok", s_v(exp_s)))))
         m.tests.append(("from_ref", f'let a = {a_lit}; let r: Result<S, String> = S::try_from(&a); println!("{name} from_ref {{:?}}", r);', dbg(("ok", s_v(exp_s)))))
-        if not use_vars:
-          m.tests.append(("into_owned", f'let s = {s_lit}; let r: Result<A, String> = s.try_into(); println!("{name} into_owned {{:?}}", r);', dbg(("ok", ea))))
-        if not use_vars:
-          m.tests.append(("into_ref", f'let s = {s_lit}; let r: Result<A, String> = (&s).try_into(); println!("{name} into_ref {{:?}}", r);', dbg(("ok", ea))))
+        m.tests.append(("into_owned", f'let s = {s_lit}; let r: Result<A, String> = s.try_into(); println!("{name} into_owned {{:?}}", r);', dbg(("ok", ea))))
+        m.tests.append(("into_ref", f'let s = {s_lit}; let r: Result<A, String> = (&s).try_into(); println!("{name} into_ref {{:?}}", r);', dbg(("ok", ea))))
         m.tests.append(("existing_owned", f'let s = {s_lit}; let mut o = {lit(pre_exist)}; s.try_into_existing(&mut o).unwrap(); println!("{name} existing_owned {{:?}}", o);', dbg(ea)))
         m.tests.append(("existing_ref", f'let s = {s_lit}; let mut o = {lit(pre_exist)}; (&s).try_into_existing(&mut o).unwrap(); println!("{name} existing_ref {{:?}}", o);', dbg(ea)))
     else:
         m.tests.append(("from_owned", f'let a = {a_lit}; let r = S::from(a); println!("{name} from_owned {{:?}}", r);', dbg(s_v(exp_s))))
         m.tests.append(("from_ref", f'let a = {a_lit}; let r = S::from(&a); println!("{name} from_ref {{:?}}", r);', dbg(s_v(exp_s))))
-        if not use_vars:
-          m.tests.append(("into_owned", f'let s = {s_lit}; let r: A = s.into(); println!("{name} into_owned {{:?}}", r);', dbg(ea)))
-        if not use_vars:
-          m.tests.append(("into_ref", f'let s = {s_lit}; let r: A = (&s).into(); println!("{name} into_ref {{:?}}", r);', dbg(ea)))
+        m.tests.append(("into_owned", f'let s = {s_lit}; let r: A = s.into(); println!("{name} into_owned {{:?}}", r);', dbg(ea)))
+        m.tests.append(("into_ref", f'let s = {s_lit}; let r: A = (&s).into(); println!("{name} into_ref {{:?}}", r);', dbg(ea)))
         m.tests.append(("existing_owned", f'let s = {s_lit}; let mut o = {lit(pre_exist)}; s.into_existing(&mut o); println!("{name} existing_owned {{:?}}", o);', dbg(ea)))
         m.tests.append(("existing_ref", f'let s = {s_lit}; let mut o = {lit(pre_exist)}; (&s).into_existing(&mut o); println!("{name} existing_ref {{:?}}", o);', dbg(ea)))
+    return m
+
+
+def design_two_parents(r, name):
+    """one member that is a bare #[parent] for counterpart A (post-init dialect) and a parameterised #[parent(B| ..)] for
+    counterpart B (plain initialiser; B positional or with a type-level ghost): each counterpart's impl must use its own
+    dialect"""
+    m = Module(name, "flat")
+    fallible = r.random() < 0.3
+    pre, err = ("try_", ", String") if fallible else ("", "")
+    nb = r.randrange(1, 4)
+    b_tuple = r.random() < 0.5
+    s_first = r.random() < 0.5
+    m.types.append(f"{DERIVES} pub struct A {{ pub s0: i64, " + ", ".join(f"pub b{k}: i64" for k in range(nb)) + " }")
+    m.types.append(f"#[derive(o2o)] {DERIVES} #[{pre}from(A{err})] #[{pre}into_existing(A{err})] pub struct Base {{ " + ", ".join(f"pub b{k}: i64" for k in range(nb)) + " }")
+    order = ["s0"] + [f"b{k}" for k in range(nb)] if s_first else [f"b{k}" for k in range(nb)] + ["s0"]
+    if b_tuple:
+        m.types.append(f"{DERIVES} pub struct B(" + ", ".join("pub i64" for _ in order) + ");")
+        plist = ", ".join(f"[map({order.index(f'b{k}')})] b{k}" for k in range(nb))
+        binstr = f"#[{pre}from(B as (){err})] #[{pre}into(B as (){err})]"
+        s0attr = f"#[map(B| {order.index('s0')})] "
+    else:
+        m.types.append(f"{DERIVES} pub struct B {{ " + ", ".join(f"pub {nm}: i64" for nm in order) + ", pub g: i64 }")
+        plist = ", ".join(f"b{k}" for k in range(nb))
+        binstr = f"#[{pre}from(B{err})] #[{pre}into(B{err})] #[ghosts(B| g: {{ 7 }})]"
+        s0attr = ""
+    pattrs = [f"#[parent(A)]", f"#[parent(B| {plist})]"]
+    r.shuffle(pattrs)
+    fields = [f"{s0attr}pub s0: i64", " ".join(pattrs) + " pub base: Base"]
+    if not s_first:
+        fields.reverse()
+    item = f"#[{pre}from(A{err})] #[{pre}into(A{err})] {binstr} pub struct S {{ " + ", ".join(fields) + " }"
+    m.derive_src = item
+    m.types.append(f"#[derive(o2o)] {DERIVES} " + item)
+    vals = {"s0": 5}
+    vals.update({f"b{k}": 20 + k for k in range(nb)})
+    base_v = ("named", "Base", [(f"b{k}", vals[f"b{k}"]) for k in range(nb)])
+    s_v = ("named", "S", [("s0", vals["s0"]), ("base", base_v)] if s_first else [("base", base_v), ("s0", vals["s0"])])
+    a_v = ("named", "A", [("s0", vals["s0"])] + [(f"b{k}", vals[f"b{k}"]) for k in range(nb)])
+    b_in = ("tuple", "B", [vals[nm] for nm in order]) if b_tuple else ("named", "B", [(nm, vals[nm]) for nm in order] + [("g", 99)])
+    b_out = ("tuple", "B", [vals[nm] for nm in order]) if b_tuple else ("named", "B", [(nm, vals[nm]) for nm in order] + [("g", 7)])
+    wrap = (lambda v: ("ok", v)) if fallible else (lambda v: v)
+    for T, tin, tout in (("A", a_v, a_v), ("B", b_in, b_out)):
+        if fallible:
+            m.tests.append((f"from_{T}", f'let a = {lit(tin)}; let r: Result<S, String> = S::try_from(a); println!("{name} from_{T} {{:?}}", r);', dbg(wrap(s_v))))
+            m.tests.append((f"into_{T}", f'let s = {lit(s_v)}; let r: Result<{T}, String> = s.try_into(); println!("{name} into_{T} {{:?}}", r);', dbg(wrap(tout))))
+            m.tests.append((f"into_ref_{T}", f'let s = {lit(s_v)}; let r: Result<{T}, String> = (&s).try_into(); println!("{name} into_ref_{T} {{:?}}", r);', dbg(wrap(tout))))
+        else:
+            m.tests.append((f"from_{T}", f'let a = {lit(tin)}; let r = S::from(a); println!("{name} from_{T} {{:?}}", r);', dbg(s_v)))
+            m.tests.append((f"into_{T}", f'let s = {lit(s_v)}; let r: {T} = s.into(); println!("{name} into_{T} {{:?}}", r);', dbg(tout)))
+            m.tests.append((f"into_ref_{T}", f'let s = {lit(s_v)}; let r: {T} = (&s).into(); println!("{name} into_ref_{T} {{:?}}", r);', dbg(tout)))
     return m
 
 
@@ -803,7 +850,8 @@ def design_subst(r, name):
 def design_wf(r, name):
     """the mix used for C17: programs rustc must accept — nested counterparts of mixed shapes, and bare-#[parent] programs
     with item / inner attributes (the post-init dialect)"""
-    return design_tree_hints(r, name) if r.random() < 0.5 else design_flat_parent(r, name)
+    t = r.random()
+    return design_tree_hints(r, name) if t < 0.4 else design_flat_parent(r, name) if t < 0.75 else design_two_parents(r, name)
 
 
 FAMILIES = {"pparent": design_pparent, "wf": design_wf, "subst": design_subst, "flat7": design_flat7, "flat": design_flat_any, "tree": design_tree_any, "hints": design_tree_hints, "enum": design_enum, "prim": design_prim}
@@ -839,7 +887,7 @@ def write_modules(mods):
         f.write("fn main() {\n" + "".join(f"    m_{m.name}::run();\n" for m in mods) + "}\n")
 
 
-def build_and_run(mods, max_rounds=6):
+def build_and_run(mods, max_rounds=80):
     """returns (lines: {(mod, test): text}, rejected: {mod: first rustc error})"""
     ensure_crate()
     rejected = {}
